@@ -14,7 +14,7 @@ pub fn meta() -> PropertyMeta {
     PropertyMeta {
         id: "C07",
         level: "exploration",
-        rule: "literals are built from values: for each of the ten integer types, every bound B in {MIN, MAX, 0, 2^24, 2^53, powers of ten, random in range} plus offsets -3..3 plus a fraction on / just below / just above one half (or .4, .6, none, random digits), rendered in every NR1/NR2/NR3 spelling (signs, leading/trailing zeros, bare dot, exponent shifts, E/e); plus zero in every spelling, wide random literals (1..40 digits, exponent -420..420), non-decimal #H/#Q/#B literals over the whole u64 range and (as text) 2^64..2^128, which must be rejected, MIN/MAX keywords and near misses, suffixed and non-numeric elements. For 8/16-bit targets every integer in range (+-2) x fractions {none,.0,.4,.5,.6,.49999,.50001,.49999999999999994,.49999997} x two spellings is enumerated exhaustively. Oracle: exact decimal arithmetic. Non-trivial: value within 2 of a type bound, or within 1 of zero with a fractional part, or spelled with an exponent or a bare dot, or a 64-bit value needing more than 53 bits.",
+        rule: "literals are built from values: for each of the ten integer types, every bound B in {MIN, MAX, 0, 2^24, 2^53, powers of ten, random in range} plus offsets -3..3 plus a fraction on / just below / just above one half (or .4, .6, none, random digits), rendered in every NR1/NR2/NR3 spelling (signs, leading/trailing zeros, bare dot, exponent shifts, E/e); plus zero in every spelling, wide random literals (1..40 digits, exponent -420..420), non-decimal #H/#Q/#B literals over the whole u64 range and (as text) 2^64..2^128, which must be rejected, MIN/MAX keywords and near misses, suffixed and non-numeric elements. For 8/16-bit targets every integer in range (+-2) x fractions {none,.0,.4,.5,.6,.49999,.50001,.49999999999999994,.49999997} x two spellings is enumerated exhaustively. Oracle: exact decimal arithmetic. Added: magnitudes drawn log-uniformly over every bit length; exponent fields at the limits of 32/64-bit arithmetic; up to 520 leading zeros in non-decimal literals; EVERY letter string up to 4 (5) characters as a character datum of every integer type; libFuzzer target c07_dec on decimal text (thorough). Non-trivial: value within 2 of a type bound, or within 1 of zero with a fractional part, or spelled with an exponent or a bare dot, or a 64-bit value needing more than 53 bits.",
         assumptions: &[
             "admissible results: the exact rounding of the literal (both neighbours at an exact tie) and the exact rounding of its correctly rounded intermediate float (f64; f32 as well for 8/16-bit targets) -- i.e. exact up to the resolution of that float; all admissible integers in range => must be Ok(one of them); all out of range => must be -222; otherwise either",
             "a non-keyword character datum must be rejected with an error (any code), a suffixed / string / block / expression element with a command error",
